@@ -553,6 +553,12 @@ func init() {
 					return nil
 				})
 				hist.Delete("zz-dead-key")
+				if i%2 == 0 {
+					// or: every entry put in with Replace(k, k, v) on a map that does not hold k yet (the
+					// documented way to insert at the end)
+					hist = ordered.NewMap[string, any](0)
+					src.Range(func(k string, v any) error { hist.Replace(k, k, v); return nil })
+				}
 				dst2 := reflect.New(ty.t).Interface()
 				var uerr2 error
 				func() {
